@@ -31,6 +31,10 @@ inductive Guard where
   | truthy
   /-- `not value` -/
   | falsy
+  /-- `value != value`, `math.isnan(value)`: true of the float NaN only -/
+  | isNaN
+  /-- `value == value`, `not math.isnan(value)` -/
+  | notNaN
   deriving DecidableEq, Repr
 
 /-- What a statement of the collection loop of `aggregate` does to `column_value_map`. -/
@@ -94,6 +98,17 @@ inductive AExpr where
   | ifEmpty (a b : AExpr)
   /-- a name that is not defined: raises -/
   | raise
+  deriving DecidableEq, Repr
+
+/-- The cell `aggregate` writes into a result row under a label (the value of the dict comprehension
+`results = {label: … for func, col in aggregations}`, group_by.py:143). -/
+inductive CellExpr where
+  /-- `values.get(label)` (or `values[label]`: the label is always there) -/
+  | get
+  /-- `values.get(label) or None`: a falsy aggregate (COUNT 0, SUM 0, AVG 0) turns into null -/
+  | getOrNone
+  /-- `values.get(label) or <integer>`: a falsy aggregate (null included) turns into that number -/
+  | getOrLit (i : Int)
   deriving DecidableEq, Repr
 
 /-- A piece of the f-string that labels an aggregate column. -/
